@@ -12,7 +12,7 @@
 EXTENDS Integers, Sequences, FiniteSets, TLC
 
 CONSTANTS Clients, Programs, Acts, Kind, Cap, Pol, InitReducers, InitMws, RedScript, MwScript, MwVerdicts,
-          MwRemove, MwDisp, Subs, SubKind, SubCap, SubPol, MaxTasks, CbReads, FineReg, Defects
+          MwRemove, MwDisp, Subs, SubKind, SubCap, SubPol, MaxTasks, CbReads, FineReg, StopTimeouts, Defects
 
 VARIABLES progA, chanA, lkA, stateA, reducersA, mwsA, subsA, poolA, tasksA, pcA, locA, sigA, mA, hA, lblA,
           progB, chanB, lkB, stateB, reducersB, mwsB, subsB, poolB, tasksB, pcB, locB, sigB, mB, hB, lblB
